@@ -10,7 +10,8 @@ F5 parse(): text mode, handed to SeqIO.parse with the file's format; stream clos
 F1, F4 and F5 are decided by value flow over the paths of the anchor functions (`sym_paths` below): which value reaches which call
 or return under which condition.  They do not depend on whether a value is bound to a local first, on `if` statement vs
 conditional expression, on guard clauses with early return vs if/elif/else, on the order of mutually exclusive branches, or on
-a literal being named by a module constant.  A construct the rules cannot evaluate (a dispatch table, a truthiness test, a
+a literal being named by a module constant, on gzip.open(<file>, 'rb') vs gzip.GzipFile(fileobj=<file>), on map(attrgetter('seq'), records) vs
+a generator expression, or on try/except-close-raise vs an ExitStack that holds closing(<stream>) until pop_all().  A construct the rules cannot evaluate (a dispatch table, a truthiness test, a
 test on the whole mode string) is reported as undecided, naming it; a located value that is wrong is a violation.
 """
 import ast
@@ -388,6 +389,196 @@ def sym_paths(fn, block=None, env=None):
     return done
 
 
+def expand_foreign_helpers(m, fi):
+    """N8 expands helpers of the SAME module.  A helper that is not part of the reference tree but lives in ANOTHER module (a
+    loop moved into a utility module and imported back) is followed here: its body is expanded at the call with the arguments
+    bound (same machinery as N8, gsa.inline.Inliner), free names of the helper keep the meaning they have in its own module.
+    Returns a FuncInfo for the expanded copy (the model is not modified), or fi itself when there is nothing to expand."""
+    from ..inline import Inliner
+    from ..model import FuncInfo
+    from ..normalize import canonicalise
+    if fi.cls is not None or fi.module.kind != 'py':
+        return fi
+    known = known_symbols()
+    host = copy.deepcopy(fi.node)
+    helpers, extra = {}, {}
+    hostns = set(fi.module.imports) | set(fi.module.functions) | set(fi.module.classes) | set(fi.module.assigns)
+    for c in calls_in(host):
+        q = m.resolve_call(fi, c)
+        h = m.functions.get(q) if q else None
+        if h is None or q in known or h.module is fi.module or h.cls is not None or h.module.kind != 'py' or h.decorators:
+            continue
+        local = f'_x_{h.name}'
+        if local not in helpers:
+            hd = copy.deepcopy(h.node)
+            hd.name = local
+            a = hd.args
+            bound = {x.arg for x in a.posonlyargs + a.args + a.kwonlyargs} | {n.id for n in ast.walk(hd) if isinstance(n, ast.Name) and isinstance(n.ctx, ast.Store)}
+            clash = False
+            for n in ast.walk(hd):
+                if isinstance(n, ast.Name) and isinstance(n.ctx, ast.Load) and n.id not in bound:
+                    r = m.resolve(h.module, n)
+                    if r is None:
+                        continue                      # builtin
+                    if n.id in hostns and m.resolve(fi.module, n) != r or extra.get(n.id, r) != r:
+                        clash = True
+                    extra[n.id] = r
+            if clash:
+                continue
+            helpers[local] = hd
+        c.func = ast.copy_location(ast.Name(id=local, ctx=ast.Load()), c.func)
+    if not helpers:
+        return fi
+    tree = ast.Module(body=list(helpers.values()) + [host], type_ignores=[])
+    ast.fix_missing_locations(tree)
+    inl = Inliner(tree, fi.module.name, known | {fi.qualname})
+    inl.run()
+    if not inl.log:
+        return fi
+    mod = copy.copy(fi.module)
+    mod.imports = {**{k: v for k, v in extra.items() if k not in hostns}, **fi.module.imports}
+    node = canonicalise(ast.Module(body=[host], type_ignores=[])).body[0]
+    return FuncInfo(fi.qualname, node, mod, None)
+
+
+def expand_state_objects(m, fi):
+    """Scalar replacement of a small state object.  `t = C(a)` where C is a class that is not part of the reference tree (plain
+    class: no bases, methods without decorators other than @property, attributes only reached through self) and `t` is used in
+    this function only as `t.method(...)`, `t.attr`, `t.prop`: the constructor and method bodies are expanded at the calls
+    (self := t, gsa.inline.Inliner) and every `t.attr` becomes the local `t__attr`, so the rules see the lists / dicts the
+    object wraps and what the methods do with them by ordinary value flow.
+    Returns (FuncInfo, notes): notes name the objects that could NOT be replaced (the caller reports them if it gets stuck)."""
+    from ..inline import Inliner
+    from ..model import FuncInfo
+    from ..normalize import canonicalise
+    notes = []
+    if fi.module.kind != 'py':
+        return fi, notes
+    known = known_symbols()
+    host = copy.deepcopy(fi.node)
+    pm = {c: p for p in ast.walk(host) for c in ast.iter_child_nodes(p)}
+    cands = {}
+    for st in stmts_in(host.body):
+        if isinstance(st, ast.Assign) and len(st.targets) == 1 and isinstance(st.targets[0], ast.Name) and isinstance(st.value, ast.Call):
+            q = m.resolve_call(fi, st.value)
+            ci = m.classes.get(q) if q else None
+            if ci is not None and f'{q}.__init__' not in known and not any(k.startswith(q + '.') for k in known):
+                cands.setdefault(st.targets[0].id, []).append((st, ci))
+    if not cands:
+        return fi, notes
+    helpers, done = {}, []
+    for t, defs in cands.items():
+        st, ci = defs[0]
+        cname = ci.name
+        why = None
+        body = [x for x in ci.node.body if not (isinstance(x, ast.Expr) and isinstance(x.value, ast.Constant))]
+        meths = {x.name: x for x in body if isinstance(x, ast.FunctionDef)}
+        props = {n for n, x in meths.items() if [u(d) for d in x.decorator_list] == ['property']}
+        if len(defs) != 1 or sum(1 for x in ast.walk(host) if isinstance(x, ast.Name) and x.id == t and isinstance(x.ctx, ast.Store)) != 1:
+            why = f'{t} is bound more than once'
+        elif ci.module is not fi.module:
+            why = f'class {cname} is defined in another module'
+        elif ci.node.bases or ci.node.keywords or ci.node.decorator_list:
+            why = f'class {cname} has bases / decorators'
+        elif any(not isinstance(x, ast.FunctionDef) and not (isinstance(x, ast.AnnAssign) and x.value is None) for x in body):
+            why = f'class {cname} has class-level state'
+        elif any(x.decorator_list and n not in props for n, x in meths.items()) or any(x.args.vararg or x.args.kwarg or not x.args.args for x in meths.values()):
+            why = f'class {cname} has decorated / variadic methods'
+        elif '__init__' not in meths or any(n.startswith('__') and n != '__init__' for n in meths):
+            why = f'class {cname} defines special methods'
+        else:
+            for mt in meths.values():
+                me = mt.args.args[0].arg
+                for n in ast.walk(mt):
+                    if isinstance(n, ast.Name) and n.id == me and not (isinstance(pm_get(mt, n), ast.Attribute)):
+                        why = f'{cname}.{mt.name} lets self escape'
+                    if isinstance(n, ast.Attribute) and isinstance(n.value, ast.Name) and n.value.id == me and n.attr in meths:
+                        why = f'{cname}.{mt.name} uses another method / property of the object ({n.attr})'
+        uses = [x for x in ast.walk(host) if isinstance(x, ast.Name) and x.id == t and isinstance(x.ctx, ast.Load)]
+        if why is None:
+            for x in uses:
+                par = pm.get(x)
+                if not (isinstance(par, ast.Attribute) and par.value is x):
+                    why = f'{t} (a {cname}) is used as a whole: {u(pm.get(x))[:60]}'
+                    break
+                if par.attr in meths and par.attr not in props and not (isinstance(pm.get(par), ast.Call) and pm.get(par).func is par):
+                    why = f'bound method {t}.{par.attr} is used as a value'
+                    break
+        if why is not None:
+            notes.append(why)
+            continue
+        # rewrite the uses into calls of module-level copies of the methods
+        for n, mt in meths.items():
+            hd = copy.deepcopy(mt)
+            hd.name, hd.decorator_list, hd.returns = f'_s_{cname}_{n}', [], None
+            helpers[hd.name] = hd
+        for x in uses:
+            par = pm[x]
+            if par.attr in props:
+                new = ast.Call(func=ast.Name(id=f'_s_{cname}_{par.attr}', ctx=ast.Load()), args=[ast.Name(id=t, ctx=ast.Load())], keywords=[])
+                _replace_child(pm[par], par, ast.copy_location(new, par))
+            elif par.attr in meths:
+                call = pm[par]
+                call.func = ast.copy_location(ast.Name(id=f'_s_{cname}_{par.attr}', ctx=ast.Load()), par)
+                call.args = [ast.Name(id=t, ctx=ast.Load())] + call.args
+        init = st.value
+        init.func = ast.copy_location(ast.Name(id=f'_s_{cname}___init__', ctx=ast.Load()), init.func)
+        init.args = [ast.Name(id=t, ctx=ast.Load())] + init.args
+        _replace_child(pm[st], st, ast.copy_location(ast.Expr(value=init), st))
+        done.append((t, cname))
+    if not done:
+        return fi, notes
+    wrap = host
+    if fi.cls is not None:
+        wrap = ast.ClassDef(name=fi.cls.name, bases=[], keywords=[], body=[host], decorator_list=[])
+    tree = ast.Module(body=list(helpers.values()) + [wrap], type_ignores=[])
+    ast.fix_missing_locations(tree)
+    inl = Inliner(tree, fi.module.name, known | {fi.qualname})
+    inl.run()
+    left = [c for c in ast.walk(host) if isinstance(c, ast.Call) and isinstance(c.func, ast.Name) and c.func.id in helpers]
+    if left:
+        return fi, notes + [f'method {left[0].func.id[3:]} of the state object could not be expanded in place']
+    for t, cname in done:
+        for n in ast.walk(host):
+            if isinstance(n, ast.Attribute) and isinstance(n.value, ast.Name) and n.value.id == t:
+                pass
+        host = _AttrToLocal(t).visit(host)
+        if any(isinstance(n, ast.Name) and n.id == t for n in ast.walk(host)):
+            return fi, notes + [f'{t} (a {cname}) is still used as a whole after expansion']
+    ast.fix_missing_locations(host)
+    node = canonicalise(ast.Module(body=[host], type_ignores=[])).body[0]
+    return FuncInfo(fi.qualname, node, fi.module, fi.cls), notes
+
+
+def pm_get(root, node):
+    for p in ast.walk(root):
+        for c in ast.iter_child_nodes(p):
+            if c is node:
+                return p
+    return None
+
+
+def _replace_child(parent, old, new):
+    for f, v in ast.iter_fields(parent):
+        if v is old:
+            setattr(parent, f, new)
+        elif isinstance(v, list):
+            for i, x in enumerate(v):
+                if x is old:
+                    v[i] = new
+
+
+class _AttrToLocal(ast.NodeTransformer):
+    def __init__(self, t):
+        self.t = t
+
+    def visit_Attribute(self, node):
+        if isinstance(node.value, ast.Name) and node.value.id == self.t:
+            return ast.copy_location(ast.Name(id=f'{self.t}__{node.attr}', ctx=node.ctx), node)
+        self.generic_visit(node)
+        return node
+
+
 def returning(paths):
     return [p for p in paths if p.end[0] == 'return']
 
@@ -467,9 +658,30 @@ def _direct_accumulation(rep, m, fi, p, v, kp, sf):
             stmt='calc_signature operands')
 
 
+def _map_as_generator(m, fi, g):
+    """map(F, it) with F = operator.attrgetter('a') or lambda x: x.a is the lazy elementwise (x.a for x in it): rewritten to
+    that generator expression so that the per-record conditions are evaluated on one form.  Anything else is returned as is."""
+    if not (isinstance(g, ast.Call) and isinstance(g.func, ast.Name) and g.func.id == 'map' and len(g.args) == 2 and not g.keywords and 'map' not in fi.module.imports
+            and 'map' not in fi.module.functions):
+        return g
+    f, it = g.args
+    attr = None
+    if isinstance(f, ast.Call) and m.resolve_call(fi, f) == 'operator.attrgetter' and len(f.args) == 1 and not f.keywords and isinstance(f.args[0], ast.Constant) \
+            and isinstance(f.args[0].value, str) and f.args[0].value.isidentifier():
+        attr = f.args[0].value
+    elif isinstance(f, ast.Lambda) and len(f.args.args) == 1 and not (f.args.posonlyargs or f.args.kwonlyargs or f.args.vararg or f.args.kwarg or f.args.defaults) \
+            and isinstance(f.body, ast.Attribute) and isinstance(f.body.value, ast.Name) and f.body.value.id == f.args.args[0].arg:
+        attr = f.body.attr
+    if attr is None:
+        return g
+    var = ast.Name(id='record', ctx=ast.Load())
+    return ast.GeneratorExp(elt=ast.Attribute(value=var, attr=attr, ctx=ast.Load()),
+                            generators=[ast.comprehension(target=ast.Name(id='record', ctx=ast.Store()), iter=it, ifs=[], is_async=0)])
+
+
 def check_isolation(ctx):
     rep, m = ctx.rep, ctx.model
-    fi = m.func('gambit.sigs.calc.calc_file_signature')
+    fi = expand_foreign_helpers(m, m.func('gambit.sigs.calc.calc_file_signature'))
     rep.functions.add(fi.qualname)
     kp, sf = fi.params()[:2]
     QS = 'gambit.sigs.calc.calc_signature'
@@ -496,6 +708,7 @@ def check_isolation(ctx):
         if isinstance(g, ast.ListComp) and isinstance(g0, ast.Name):
             # an eagerly built list reads the records where it is built; the search may then run anywhere
             withs = next(ev.withs for ev in p.events if ev.kind == 'def' and ev.sym == g0.id)
+        g = _map_as_generator(m, fi, g)
         if not isinstance(g, (ast.GeneratorExp, ast.ListComp)):
             unknown_forms.append(u(g))
             continue
@@ -562,10 +775,11 @@ def check_compression(ctx):
             continue
         # a site inside a helper that is not part of the reference tree (duplicated stanzas extracted into one function) stands
         # for every place in cli/ that calls the helper; a helper nobody calls opens no file
-        if fi.qualname in known_symbols():
-            sites += 1
-        else:
-            sites += sum(1 for g, c2 in m.iter_calls(kinds=('py',)) if g.module.name.startswith('gambit.cli.') and m.resolve_call(g, c2) == fi.qualname)
+        # Likewise a site inside a function of cli/ that other cli/ code calls to obtain its files (get_sequence_files) feeds every
+        # one of those callers: the floor counts the places that receive checked SequenceFile objects, so dropping a redundant
+        # re-wrap of already constructed files does not look like a vanished site, while losing the shared site does.
+        callers = sum(1 for g, c2 in m.iter_calls(kinds=('py',)) if g.module.name.startswith('gambit.cli.') and m.resolve_call(g, c2) == fi.qualname)
+        sites += callers if fi.qualname not in known_symbols() else max(1, callers)
         rep.call_sites += 1
         rep.functions.add(fi.qualname)
         rep.add('F4', fi.site(call), 'genome files given on the command line are opened with content-based compression detection', comp not in (None, Ellipsis) and is_const(comp, 'auto') and is_const(fmt, 'fasta'),
@@ -636,7 +850,7 @@ def check_open(ctx):
 
 def check_open_compressed(ctx):
     rep, m = ctx.rep, ctx.model
-    foc = m.func('gambit.util.io.open_compressed')
+    foc = expand_foreign_helpers(m, m.func('gambit.util.io.open_compressed'))
     rep.functions.add(foc.qualname)
     pa, md, cp = foc.params()[:3]
     auto = [p for p in returning(sym_paths(foc.node)) if p.feasible_with(('eq', "'auto'", cp))]
@@ -665,10 +879,27 @@ def _text_wrapper(m, fi, p, v):
     return None
 
 
+def _gzip_over(m, fi, c):
+    """Name of the stream a binary gzip reader is built over, for gzip.GzipFile(fileobj=F, mode 'rb'/'r'/default) and for
+    gzip.open(F, 'rb'/'r'/default) (which, given an open file object, returns GzipFile(fileobj=F)); '?' when the call is one of
+    the two but with other arguments (text mode, a file name ...); None when it is neither."""
+    r = (m.resolve_call(fi, c) or '') if isinstance(c, ast.Call) else ''
+    if r == 'gzip.GzipFile':
+        f, name, mode, extra = get_arg(c, 3, 'fileobj'), get_arg(c, 0, 'filename'), get_arg(c, 1, 'mode'), [k.arg for k in c.keywords if k.arg not in ('fileobj', 'filename', 'mode')]
+        plain = (name is None or is_none(name)) and len(c.args) <= 2
+    elif r == 'gzip.open':
+        f, mode, extra = get_arg(c, 0, 'filename'), get_arg(c, 1, 'mode'), [k.arg for k in c.keywords if k.arg not in ('filename', 'mode')]
+        plain = len(c.args) <= 2
+    else:
+        return None
+    ok = plain and not extra and isinstance(f, ast.Name) and (mode is None or (isinstance(mode, ast.Constant) and mode.value in ('rb', 'r')))
+    return f.id if ok else '?'
+
+
 def check_open_auto(ctx):
     """_open_auto, decided per path: which stream object is returned for which detected compression and which mode."""
     rep, m = ctx.rep, ctx.model
-    fa = m.func('gambit.util.io._open_auto')
+    fa = expand_foreign_helpers(m, m.func('gambit.util.io._open_auto'))
     rep.functions.add(fa.qualname)
     pa, md = fa.params()[:2]
     paths = sym_paths(fa.node)
@@ -736,21 +967,20 @@ def check_open_auto(ctx):
                 if cv is None or not p.feasible_with(('eq', repr(comp), cv)) or b is None:
                     continue
                 bd = p.defs.get(b.id) if isinstance(b, ast.Name) else None
-                is_gz = isinstance(bd, ast.Call) and (m.resolve_call(fa, bd) or '') == 'gzip.GzipFile'
+                is_gz = _gzip_over(m, fa, bd) is not None
                 comp_open = p.feasible_with(('eq', "'none'", cv)) and p.feasible_with(('eq', "'gzip'", cv))
                 rep.require(not comp_open or is_gz or isinstance(b, ast.Name) and b.id == fv,
                             f'_open_auto: the stream is not selected by a test on the detected compression but by a construct outside the vocabulary: {u(bd) if bd is not None else u(b)}')
                 if comp == 'none':
                     good_b = isinstance(b, ast.Name) and b.id == fv
                 else:
-                    good_b = isinstance(bd, ast.Call) and (m.resolve_call(fa, bd) or '') == 'gzip.GzipFile' and u(get_arg(bd, 3, 'fileobj')) == fv \
-                        and (get_arg(bd, 0, 'filename') is None or is_none(get_arg(bd, 0, 'filename'))) and (get_arg(bd, 1, 'mode') is None or u(get_arg(bd, 1, 'mode')) in ("'rb'", "'r'"))
+                    good_b = _gzip_over(m, fa, bd) == fv
                 table.setdefault(comp, set()).add(u(bd) if bd is not None and comp == 'gzip' else u(b))
                 okb = okb and good_b
     okb = okb and set(table) == {'none', 'gzip'}
     okt = okt and seen_mode['text'] > 0 and seen_mode['binary'] > 0
     fv0 = next((fv for _, fv, _ in info if fv), '<file>')
-    rep.add('F4', fa.site(rets[0].end[1]), 'plain content is read as is, gzip content through GzipFile over the same stream', okb, expected=f"none -> {fv0}; gzip -> gzip.GzipFile(fileobj={fv0}, mode='rb')",
+    rep.add('F4', fa.site(rets[0].end[1]), 'plain content is read as is, gzip content through GzipFile over the same stream', okb, expected=f"none -> {fv0}; gzip -> gzip.GzipFile(fileobj={fv0}, mode='rb') (or gzip.open({fv0}, 'rb'))",
             found={k: sorted(v) for k, v in table.items()}, stmt='decompression table')
     rep.add('F4', fa.site(rets[0].end[1]), 'text mode wraps the (decompressed) stream in a TextIOWrapper with universal newlines (LF and CRLF equivalent)', okt, expected=f"TextIOWrapper(<binary stream>, **kwargs) if {tkey} == 't' else <binary stream>",
             found=sorted({f'{u(p.end[2])} under {sorted(a for a in p.atoms() if tkey in a)}' for p in rets}), stmt='text wrapper')
@@ -758,6 +988,11 @@ def check_open_auto(ctx):
     for p in rets:
         if not any(p.end[1] is x for x in seen):
             seen.append(p.end[1])
+    # the failure path: a handler that closes the file and returns nothing (falls off the end, `return`, `return None`)
+    for t in [x for x in stmts_in(fa.node.body) if isinstance(x, ast.Try)]:
+        for h in t.handlers:
+            closes = any(isinstance(x, ast.Expr) and isinstance(x.value, ast.Call) and u(x.value.func) == f'{fv0}.close' for x in h.body)
+            seen += [x for x in stmts_in(h.body) if isinstance(x, ast.Return) and closes and (x.value is None or is_none(x.value))]
     rep.account_returns('F4', fa, seen, 'opened stream')
     # reading only
     rkey = f'{md}[0]'
@@ -769,7 +1004,7 @@ def check_open_auto(ctx):
 def check_guess(ctx):
     """guess_compression: 'gzip' exactly when the first two bytes are 1f 8b."""
     rep, m = ctx.rep, ctx.model
-    fg = m.func('gambit.util.io.guess_compression')
+    fg = expand_foreign_helpers(m, m.func('gambit.util.io.guess_compression'))
     rep.functions.add(fg.qualname)
     fobj = fg.params()[0]
     MAGIC = b'\x1f\x8b'
@@ -822,8 +1057,8 @@ def check_parse(ctx):
     rep.functions.add(fp.qualname)
     rets = returning(sym_paths(fp.node))
     rep.require(rets, 'SequenceFile.parse: no returning path')
-    oko = okp = okr = True
-    f_open, f_parse, f_ret, sites = [], [], [], {}
+    oko = okp = okr = stack_ok = True
+    f_open, f_parse, f_ret, sites, guards = [], [], [], {}, []
     fv = None
     for p in rets:
         v = p.resolve(p.end[2])
@@ -839,6 +1074,34 @@ def check_parse(ctx):
         # the stream
         od = p.defs[fo.id]
         f_open.append(u(od))
+        # stream = <ExitStack>.enter_context(closing(E)): the value is E itself (closing.__enter__ returns its argument), and
+        # the stack - while it is an open with-context and until pop_all() - closes E when an exception leaves the block
+        guard = None
+        if isinstance(od, ast.Call) and isinstance(od.func, ast.Attribute) and od.func.attr == 'enter_context' and isinstance(od.func.value, ast.Name) and len(od.args) == 1 and not od.keywords:
+            sd = p.defs.get(od.func.value.id)
+            inner = od.args[0]
+            if isinstance(sd, ast.Call) and u(sd.func) == '__enter__' and isinstance(sd.args[0], ast.Call) and m.resolve_call(fp, sd.args[0]) == 'contextlib.ExitStack' \
+                    and isinstance(inner, ast.Call) and m.resolve_call(fp, inner) == 'contextlib.closing' and len(inner.args) == 1 and not inner.keywords:
+                guard = (od.func.value.id, next(e.stmt for e in p.events if e.kind == 'def' and e.sym == od.func.value.id))
+                od = p.resolve(inner.args[0])
+        guards.append(guard)
+        if guard is not None:
+            S, wstmt = guard
+            evs = p.events
+            i_enter = next(i for i, e in enumerate(evs) if e.kind == 'def' and e.sym == fo.id)
+            made = [i for i, e in enumerate(evs) if e.kind == 'def' and isinstance(e.expr, ast.Call) and m.resolve_call(fp, e.expr) in ('Bio.SeqIO.parse', 'gambit.util.io.ClosingIterator')]
+            inline = [c for c in ast.walk(p.end[2]) if isinstance(c, ast.Call) and m.resolve_call(fp, c) in ('Bio.SeqIO.parse', 'gambit.util.io.ClosingIterator')]
+            pops = [i for i, e in enumerate(evs) if e.kind == 'call' and u(e.expr) == f'{S}.pop_all()']
+            other = [u(e.expr) for e in evs if e.kind in ('call', 'def') and isinstance(e.expr, ast.Call) and isinstance(e.expr.func, ast.Attribute) and u(e.expr.func.value) == S
+                     and e.expr.func.attr not in ('pop_all', 'enter_context')]
+            rep.require(not other, f'SequenceFile.parse: the exit stack is used by a construct outside the vocabulary: {other}')
+            # released exactly once, after everything that can fail was set up inside the stack's with block, and before the return
+            released = len(pops) == 1 and not inline and made and pops[0] > max(made)
+            protected = bool(made) and all(i > i_enter and any(w is wstmt for w in evs[i].withs) for i in made) and (not pops or pops[0] > max(made))
+            okr = okr and released
+            stack_ok = stack_ok and protected
+            if not released:
+                f_ret[-1] += f' with {len(pops)} x {S}.pop_all()' + (' before the iterator exists' if pops and made and pops[0] < max(made) else '')
         sites.setdefault('open', next(e.stmt for e in p.events if e.kind == 'def' and e.sym == fo.id))
         oko = oko and isinstance(od, ast.Call) and m.resolve_call(fp, od) == 'gambit.seq.SequenceFile.open' and u(od.func) == 'self.open' and is_const(get_arg(od, 0, 'mode'), 'rt')
         # the records
@@ -864,7 +1127,12 @@ def check_parse(ctx):
     pcalls = [c for c in calls_in(fp.node) if m.resolve_call(fp, c) in ('Bio.SeqIO.parse', 'gambit.util.io.ClosingIterator')]
     covered = [c for c in pcalls if any(any(x is c for b in t.body for x in ast.walk(b)) and any(closes(h) for h in t.handlers) for t in tr)]
     okt = bool(pcalls) and len(covered) == len(pcalls)
-    rep.add('F5', fp.site(tr[0] if tr else None), 'the stream is closed and the error re-raised if the parser cannot be set up', okt, expected=f'except: {fv}.close(); raise', found=[u(h)[:60] for t in tr for h in t.handlers], stmt='error path')
+    by_stack = bool(guards) and all(g is not None for g in guards)
+    if by_stack and not okt:
+        okt = stack_ok and bool(pcalls)
+    rep.add('F5', fp.site(tr[0] if tr else (guards[0][1] if by_stack else None)), 'the stream is closed and the error re-raised if the parser cannot be set up', okt,
+            expected=f'except: {fv}.close(); raise  (or the stream registered with closing() on an ExitStack that is released only after the iterator exists)',
+            found=[u(h)[:60] for t in tr for h in t.handlers] or ([f'{g[0]}.enter_context(closing(..)) protects the set-up: {stack_ok}' for g in guards if g] if by_stack else []), stmt='error path')
     ci = m.cls('gambit.util.io.ClosingIterator')
     nx = ci.methods.get('__next__')
     rep.functions.add(nx.qualname)
@@ -919,6 +1187,9 @@ _DISP_OLD = ("\tif compression == 'none':\n\t\treturn open(path, mode, **kwargs)
 _GUESS_OLD = "\tmagic = fobj.read(2)\n\n\tif magic == b'\\x1f\\x8b':\n\t\treturn 'gzip'\n\telse:\n\t\treturn 'none'\n"
 _T = "T = TypeVar('T')\n"
 _D = 'src/gambit/cli/dist.py'
+_PARSE_FULL = "\t\tfobj = self.open('rt', **kwargs)\n\n\t\ttry:\n\t\t\trecords = SeqIO.parse(fobj, self.format)\n\t\t\treturn ClosingIterator(records, fobj)\n\n\t\texcept:\n\t\t\tfobj.close()\n\t\t\traise\n"
+_PARSE_STACK = "\t\twith ExitStack() as cleanup:\n\t\t\tfobj = cleanup.enter_context(closing(self.open('rt', **kwargs)))\n\t\t\trecords = SeqIO.parse(fobj, self.format)\n%s"
+_STACK_IMPORT = [('src/gambit/seq.py', "from os import PathLike\n", "from os import PathLike\nfrom contextlib import ExitStack, closing\n")]
 _HELPER = ("def _sigs_of(kspec, paths, meter, label, **kw):\n\tseqfiles = SequenceFile.from_paths(paths, 'fasta', %s)\n\tpconf = progress_config(meter, desc=label) if len(paths) > 1 else None\n"
            "\treturn calc_file_signatures(kspec, seqfiles, progress=pconf, **kw)\n\n\n")
 _HELPER_CALLS = (
@@ -983,6 +1254,26 @@ VARIANTS = [
     V('twin: inlined parser call with a hard-coded format', 'B', _SQ, _PARSE_OLD, "\t\t\treturn ClosingIterator(SeqIO.parse(fobj, 'fasta'), fobj)\n\n\t\texcept BaseException:\n", 'F5'),
     V('twin: iterator does not wrap the parsed records', 'B', _SQ, _PARSE_OLD, "\t\t\trecords = SeqIO.parse(fobj, self.format)\n\t\t\treturn ClosingIterator(iter(list(records)[1:]), fobj)\n\n\t\texcept BaseException:\n", 'F5'),
     V('twin: parser set up outside the protected block (stream leaks on failure)', 'B', _SQ, "\t\ttry:\n\t\t\trecords = SeqIO.parse(fobj, self.format)\n", "\t\trecords = SeqIO.parse(fobj, self.format)\n\t\ttry:\n", 'F5'),
+    # library-call swaps and context-manager forms
+    V('E: gzip.open over the open file instead of GzipFile(fileobj=...)', 'E', _IO, "binary = gzip.GzipFile(fileobj=file, mode='rb')", "binary = gzip.open(file, 'rb')"),
+    V('twin: gzip.open over the open file in text mode (wrapped twice)', 'B', _IO, "binary = gzip.GzipFile(fileobj=file, mode='rb')", "binary = gzip.open(file, 'rt')", 'F4'),
+    V('twin: gzip.open over a different stream', 'B', _IO, "binary = gzip.GzipFile(fileobj=file, mode='rb')", "binary = gzip.open(open(path + '.gz', 'rb'), 'rb')", 'F4'),
+    V('E: failure handler returns None explicitly after closing', 'E', _IO, "\texcept Exception:\n\t\tfile.close()\n", "\texcept Exception:\n\t\tfile.close()\n\t\treturn None\n"),
+    V('twin: failure handler hands back the raw file', 'B', _IO, "\texcept Exception:\n\t\tfile.close()\n", "\texcept Exception:\n\t\tfile.seek(0)\n\t\treturn file\n", 'F4'),
+    V('E: records handed over through map(attrgetter)', 'E', _S, "(record.seq for record in records)", "map(attrgetter('seq'), records)", also=[(_S, "from contextlib import nullcontext\n", "from contextlib import nullcontext\nfrom operator import attrgetter\n")]),
+    V('E: records handed over through map(lambda)', 'E', _S, "(record.seq for record in records)", "map(lambda rec: rec.seq, records)"),
+    V('twin: map(attrgetter) of the wrong attribute', 'B', _S, "(record.seq for record in records)", "map(attrgetter('id'), records)", 'F1', also=[(_S, "from contextlib import nullcontext\n", "from contextlib import nullcontext\nfrom operator import attrgetter\n")]),
+    V('twin: map(attrgetter) over all but the first record', 'B', _S, "(record.seq for record in records)", "map(attrgetter('seq'), list(records)[1:])", 'F1', also=[(_S, "from contextlib import nullcontext\n", "from contextlib import nullcontext\nfrom operator import attrgetter\n")]),
+    V('E: parse() protects the stream with ExitStack + closing, released by pop_all', 'E', _SQ, _PARSE_FULL, _PARSE_STACK % ("\t\t\titerator = ClosingIterator(records, fobj)\n\t\t\tcleanup.pop_all()\n\t\t\treturn iterator\n"), also=_STACK_IMPORT),
+    V('twin: ExitStack never released (stream closed when parse() returns)', 'B', _SQ, _PARSE_FULL, _PARSE_STACK % ("\t\t\titerator = ClosingIterator(records, fobj)\n\t\t\treturn iterator\n"), 'F5', also=_STACK_IMPORT),
+    V('twin: ExitStack released before the parser is set up (stream leaks on failure)', 'B', _SQ, _PARSE_FULL,
+      "\t\twith ExitStack() as cleanup:\n\t\t\tfobj = cleanup.enter_context(closing(self.open('rt', **kwargs)))\n\t\t\tcleanup.pop_all()\n\t\t\trecords = SeqIO.parse(fobj, self.format)\n\t\t\titerator = ClosingIterator(records, fobj)\n\t\t\treturn iterator\n", 'F5', also=_STACK_IMPORT),
+    V('twin: parser set up after the ExitStack block (unprotected)', 'B', _SQ, _PARSE_FULL,
+      "\t\twith ExitStack() as cleanup:\n\t\t\tfobj = cleanup.enter_context(closing(self.open('rt', **kwargs)))\n\t\t\tcleanup.pop_all()\n\t\trecords = SeqIO.parse(fobj, self.format)\n\t\titerator = ClosingIterator(records, fobj)\n\t\treturn iterator\n", 'F5', also=_STACK_IMPORT),
+    V('E: dist_cmd uses the files of get_sequence_files without wrapping them again', 'E', _D, "query_sigfiles = SequenceFile.from_paths(query_files, 'fasta', 'auto')", "query_sigfiles = query_files",
+      also=[(_D, "ref_sigfiles = SequenceFile.from_paths(ref_files, 'fasta', 'auto')", "ref_sigfiles = ref_files")]),
+    V('twin: re-wrap dropped and the shared construction site uses extension-based compression', 'B', _D, "query_sigfiles = SequenceFile.from_paths(query_files, 'fasta', 'auto')", "query_sigfiles = query_files", 'F4',
+      also=[(_D, "ref_sigfiles = SequenceFile.from_paths(ref_files, 'fasta', 'auto')", "ref_sigfiles = ref_files"), ('src/gambit/cli/common.py', "files = SequenceFile.from_paths(paths, 'fasta', 'auto')", "files = SequenceFile.from_paths(paths, 'fasta')")]),
     # duplicated stanzas extracted into a helper (the construction site moves into a function that is called twice)
     V('E: the two file-opening stanzas of dist_cmd extracted into one helper', 'E', _D, "def fmt_kspec(kspec):", _HELPER % "'auto'" + "def fmt_kspec(kspec):", also=_HELPER_CALLS),
     V('twin: extracted helper opens the files with extension-based compression', 'B', _D, "def fmt_kspec(kspec):", _HELPER % "None" + "def fmt_kspec(kspec):", 'F4', also=_HELPER_CALLS),
